@@ -6,5 +6,7 @@ order = ["part0", "sec1", "part2", "part3", "part4", "sec5", "sec6", "part7a", "
 out = []
 for n in order:
     out.append(open(os.path.join(d, n + ".md")).read().rstrip("\n") + "\n")
-open(os.path.join(os.path.dirname(d), "DESIGN.md"), "w").write("\n".join(out))
+import re
+text = re.sub(r'(-{80,}\n)\n+(-{80,}\n)', r'\1', "\n".join(out))
+open(os.path.join(os.path.dirname(d), "DESIGN.md"), "w").write(text)
 print("DESIGN.md written:", sum(len(x) for x in out), "bytes")
